@@ -48,6 +48,8 @@ UNIT = dict(
         dict(key="Data::inner_noblock", groups=["hand"], file=AS, kind="fn", name="inner_noblock", owner=DO, emit_owner="impl<R> Data<R>", pre_body_rules=PRE),
         dict(key="Data::sender", groups=["hand"], file=AS, kind="fn", name="sender", owner=DO, emit_owner="impl<R> Data<R>"),
         dict(key="new_async", groups=["hand"], file=AS, kind="fn", name="new_async"),
+        dict(key="AsyncDispatcher::setup", groups=["hand", "ahooks"], file=AS, kind="fn", name="setup", owner=AD, emit_owner=ADO, sig_prefix=NOISO, mut_iter_vars=["stages"],
+             sig_rules=[(r"where\s*R\s*:\s*BorrowMut\s*<\s*World\s*>\s*,?", "")]),
         dict(key="AsyncDispatcher::dispatch", groups=["hand"], file=AS, kind="fn", name="dispatch", owner=AD, emit_owner=ADO, sig_prefix=NOISO),
         dict(key="AsyncDispatcher::wait", groups=["hand", "tlw"], file=AS, kind="fn", name="wait", owner=AD, emit_owner=ADO, sig_prefix=NOISO),
         dict(key="AsyncDispatcher::wait_without_tl", groups=["hand"], file=AS, kind="fn", name="wait_without_tl", owner=AD, emit_owner=ADO),
